@@ -23,6 +23,8 @@ class Skel:
             if k == "text":
                 out.append(it[1])
                 continue
+            if k == "other" and isinstance(it[1], str) and it[1].startswith(("macro-begin:", "macro-end:")):
+                continue            # the brackets jmodel puts round an expanded macro call are not part of the text
             idx = len(self.marks)
             self.marks.append(it)
             if k in ("out", "set", "other"):
